@@ -363,6 +363,7 @@ func oracle1(c *Case) (facts, error) {
 }
 
 func run(t interface{ Fatalf(string, ...any) }, c *Case, sub string) {
+	defer fix.Track(prop, sub, c, c.Summary())()
 	f, err := oracle(c)
 	nt := (f.evictions > 0 && f.hitAfterEv) || f.sizeChanged
 	cl := []string{"cap:" + capClass(c.Cap)}
@@ -643,6 +644,7 @@ func turnOracle(c *TurnCase) (evictions int, err error) {
 }
 
 func runTurn(t interface{ Fatalf(string, ...any) }, c *TurnCase) {
+	defer fix.Track(prop, "turnover", c, c.Summary())()
 	ev, err := turnOracle(c)
 	cl := []string{"turnover"}
 	if ev > 65536 {
@@ -763,6 +765,7 @@ func mutOracle(c *MutCase) (evicted bool, err error) {
 }
 
 func runMut(t interface{ Fatalf(string, ...any) }, c *MutCase) {
+	defer fix.Track(prop, "edit", c, c.Summary())()
 	ev, err := mutOracle(c)
 	cl := []string{"edit:" + []string{"clear", "thin-out", "double", "new-chunks"}[c.Edit]}
 	if ev {
@@ -890,6 +893,7 @@ func drawRePut(t *rapid.T) *RePutCase {
 }
 
 func runRePut(t interface{ Fatalf(string, ...any) }, c *RePutCase) {
+	defer fix.Track(prop, "reput", c, c.Summary())()
 	evid.Case(true, c.Summary(), "re-put-grown")
 	if err := rePutOracle(c); err != nil {
 		fix.Fail(t, prop, "reput", c, c.Summary(), err)
